@@ -412,7 +412,12 @@ impl AdvancedStringVec {
         // Try aggressive overlap detection (allows overlapping)
         if s_bytes.len() >= self.config.min_overlap_length {
             if let Some(overlap_result) = self.find_overlapping_match(s_bytes) {
-                let (existing_offset, _overlap_len) = overlap_result;
+                let (existing_offset, overlap_len) = overlap_result;
+                // Partial overlap with the last string of the arena: only the first
+                // `overlap_len` bytes are already stored, append the rest behind them.
+                if overlap_len < s_bytes.len() {
+                    self.arena.extend_from_slice(&s_bytes[overlap_len..]);
+                }
                 let entry = BitPackedEntry::new(existing_offset, s_bytes.len())?;
                 let index = self.entries.len();
                 self.entries.push(entry);
@@ -472,7 +477,13 @@ impl AdvancedStringVec {
                 if let Some(overlap_info) = self.find_best_overlap(candidate_bytes, s_bytes) {
                     let candidate_entry = self.entries[candidate_idx];
                     let match_offset = candidate_entry.offset() + overlap_info.0;
-                    return Some((match_offset, overlap_info.1));
+                    // A partial (suffix/prefix) overlap can only be extended in place when the
+                    // candidate is the last string in the arena.
+                    if overlap_info.1 == s_bytes.len()
+                        || candidate_entry.end_offset() == self.arena.len()
+                    {
+                        return Some((match_offset, overlap_info.1));
+                    }
                 }
             }
         }
@@ -615,8 +626,9 @@ impl AdvancedStringVec {
         // Check for prefix overlap (existing string ends with prefix of new string)
         for overlap_len in (min_overlap..existing.len().min(new.len())).rev() {
             if existing[existing.len() - overlap_len..] == new[..overlap_len] {
-                // Found overlap - new string can extend from existing
-                return Some((existing.len() - overlap_len, new.len()));
+                // Found overlap - new string can extend from existing; report how many
+                // bytes of the new string are already present
+                return Some((existing.len() - overlap_len, overlap_len));
             }
         }
 
